@@ -222,5 +222,50 @@ PROPS["C19"] = {
     "technique": "Coq proof over a resolution-order model + differential against the real binary",
 }
 
+
+ISO_RULE = ("random source trees materialised on disk: depth 0..4, 0..8 entries per directory (some with 40..160 entries in one directory, some with "
+            "100..300 directories, thorough: 300 entries / 1100 directories), names from 12 classes (portable, case-colliding, characters outside "
+            "the d1 set, non-ASCII and invalid UTF-8, names that collide after mapping, 100..255 byte names), file sizes 0,1,2047,2048,2049,64 KiB+-1, "
+            "random, one sparse file of 4..8 GiB; plain and PS3 mode (generated PARAM.SFO with TITLE_ID at a random index, title ids of length "
+            "0,3,4,5,9,31,32); opened through FS.Open(***DVD***/***PS3***); every case non-trivial; distinct by hash of the scan observation")
+ISO_ASSUME = ["the scan observation (Readdirnames order, names, sizes, mtimes) is taken by the harness with os.Open/os.Stat on the same tree the "
+              "image was built from; TZ=UTC", "time.Now() and crypto/rand are the model's explicit arguments now/rnd (masked on both sides)"]
+
+def iso_job(q, t):
+    return {"cmd": "iso", "quick": q, "thorough": t, "timeout": 6000}
+
+PROPS["C07"] = {
+    "jobs": [iso_job(120, 3000)],
+    "rule": ISO_RULE, "assumptions": ISO_ASSUME,
+    "partial": ["the theorems stop at the record level: that an independent reader walking the bytes from the root record reaches every directory "
+                "(child links, '..' links) is decided by the harness's own ECMA-119/Joliet reader on every generated image, not by a theorem",
+                "the network and make-iso routes are covered by the C20 job (tool output = served view) and the session jobs (served view = library view)"],
+    "level_text": "Theorems C07_layout (files tile the file area: the precondition of C09), C07_file_bytes (every file's bytes at the location its "
+                  "records give), C07_file_records (both hierarchies: each directory's records are '.', '..', its files verbatim, its sub-directories; "
+                  "multi-extent splitting tiles the file exactly), C07_served_bytes, C07_names over the byte-exact model of buildFS; the model's metadata "
+                  "area is compared with the real one by hash for every generated tree and an independent reader decodes both hierarchies.",
+    "technique": "Coq proof over a byte-exact model of the image builder + differential (hash of metadata area, file table) + independent ISO reader",
+}
+PROPS["C08"] = {
+    "jobs": [iso_job(120, 3000)],
+    "rule": ISO_RULE, "assumptions": ISO_ASSUME,
+    "partial": ["'..'/child-link consistency, path-table parent numbering, non-overlap of directory extents and the supplementary descriptor's fields "
+                "are checked by the strict validator (anchored on internal/testutil/testdata/testimg.iso) and by the byte-exact differential, not by theorems",
+                "PARAM.SFO parsing (sfoField) is exercised with generated files (any key order / count) but not modelled"],
+    "level_text": "Theorems C08_sizes, C08_volume_space, C08_record_length, C08_records (no record straddles a sector, every record fits its length "
+                  "byte, for every tree), C08_path_tables (L/M encode one list), C08_ps3_sectors over the byte-exact model of buildFS.",
+    "technique": "Coq proof over a byte-exact model of the image builder + differential + strict ECMA-119/Joliet validator",
+}
+PROPS["C18"] = {
+    "jobs": [iso_job(120, 3000)],
+    "rule": ISO_RULE + "; every tree is opened four times (once more sequentially, twice concurrently) and a sample again at the end of the run",
+    "assumptions": ISO_ASSUME + ["the filesystem returns the entries of an unchanged directory in the same order on every Readdirnames (true of the "
+                                 "Linux filesystems used here; the model takes the order as input)"],
+    "partial": ["the network and make-iso routes are covered by the C20 job"],
+    "level_text": "Theorem C18_varies_only_in_fields: for every tree the image is A ++ rnd ++ B ++ now now ++ C ++ now now ++ D with fixed A,B,C,D, file "
+                  "table and size - the clock and the random source reach exactly the documented fields; the model is tied to the code byte for byte.",
+    "technique": "Coq proof over a byte-exact model of the image builder + differential + re-open oracle",
+}
+
 # properties not registered yet, with the reason shown in MANIFEST.not_applicable
 NOT_YET = {}
